@@ -23,12 +23,15 @@ type RenderContext struct {
 	parentBlocks       map[string][]Node // Original block content from parent templates
 	macros             map[string]Node
 	parent             *RenderContext
-	engine             *Engine    // Reference to engine for loading templates
-	extending          bool       // Whether this template extends another
-	currentBlock       *BlockNode // Current block being rendered (for parent() function)
-	inParentCall       bool       // Flag to indicate if we're currently rendering a parent() call
-	sandboxed          bool       // Flag indicating if this context is sandboxed
-	lastLoadedTemplate *Template  // The template that created this context (for resolving relative paths)
+	engine             *Engine                 // Reference to engine for loading templates
+	extending          bool                    // Whether this template extends another
+	currentBlock       *BlockNode              // Current block being rendered (for parent() function)
+	blockDefs          map[string][]*BlockNode // Definitions of each block along the extends chain, most derived first
+	currentDefs        []*BlockNode            // Definition chain of the block being rendered (for parent() function)
+	currentLevel       int                     // Index into currentDefs of the definition being rendered
+	inParentCall       bool                    // Flag to indicate if we're currently rendering a parent() call
+	sandboxed          bool                    // Flag indicating if this context is sandboxed
+	lastLoadedTemplate *Template               // The template that created this context (for resolving relative paths)
 }
 
 // contextMapPool is a pool for the maps used in RenderContext
@@ -110,6 +113,9 @@ func NewRenderContext(env *Environment, context map[string]interface{}, engine *
 	ctx.engine = engine
 	ctx.extending = false
 	ctx.currentBlock = nil
+	ctx.blockDefs = nil
+	ctx.currentDefs = nil
+	ctx.currentLevel = 0
 	ctx.parent = nil
 	ctx.inParentCall = false
 	ctx.sandboxed = false
@@ -130,6 +136,9 @@ func (ctx *RenderContext) Release() {
 	ctx.env = nil
 	ctx.engine = nil
 	ctx.currentBlock = nil
+	ctx.blockDefs = nil
+	ctx.currentDefs = nil
+	ctx.currentLevel = 0
 
 	// Save the maps so we can return them to their respective pools
 	contextMap := ctx.context
@@ -326,6 +335,9 @@ func (ctx *RenderContext) Clone() *RenderContext {
 	newCtx.engine = ctx.engine
 	newCtx.extending = false
 	newCtx.currentBlock = nil
+	newCtx.blockDefs = nil
+	newCtx.currentDefs = nil
+	newCtx.currentLevel = 0
 	newCtx.parent = ctx
 	newCtx.inParentCall = false
 
